@@ -179,7 +179,9 @@ def reject_menu():
             "Converter": dict(vo=3.3, eff=0.9), "LinReg": dict(vo=3.3), "PSwitch": dict(), "PMux": dict(), "Rectifier": dict(vdrop=0.2)}
     for kind, kw in base.items():
         for lab, lim in (("non-list", {"vi": 5.0}), ("tuple", {"vi": (0.0, 5.0)}), ("short", {"ii": [1.0]}), ("long", {"pl": [0.0, 1.0, 2.0]}),
-                         ("non-numeric", {"tp": [0.0, "hot"]}), ("none-entry", {"io": [None, 1.0]})):
+                         ("non-numeric", {"tp": [0.0, "hot"]}), ("none-entry", {"io": [None, 1.0]}),
+                         ("second-entry-non-list", {"vi": [0.0, 5.5], "io": "invalid"}), ("second-entry-long", {"vo": [0.0, 3.6], "pl": [0.0, 1.0, 2.0]}),
+                         ("last-entry-non-numeric", {"vi": [0.0, 5.5], "ii": [0.0, 1.0], "tp": ["a", 1.0]})):
             M.append(("%s limits %s" % (kind, lab), kind, dict(kw, limits=lim), True))
         for lab, lim in (("good", {"vi": [0.0, 5.0], "tp": [-40, 85]}), ("int", {"ii": [0, 1]}), ("empty", {}), ("neg", {"vo": [-1.0, -6.0]})):
             M.append(("%s limits %s" % (kind, lab), kind, dict(kw, limits=lim), False))
@@ -246,5 +248,5 @@ def main(tier):
         rule="E4: (a) for 16 kind/form variants covering all 11 kinds, EVERY non-empty subset of the magnitude parameters (resistance, current, power, drop, thermal resistance; "
              "scalar, list and table forms) given with a negative sign: accepted, probe system (2 phases, the element sleeping in one) solves identically to the magnitudes, Loss>=0, "
              "Eff<=100, passive |Vout|<=|Vin|; (b) the statement's reject menu (eff, dropout, zero load resistance, 8 malformed-table shapes x 7 table carriers, negative tabulated ig, "
-             "6 malformed limits x 11 kinds, non-numeric rs lists) -> ValueError, with the adjacent good values -> accepted. evaluations = constructor calls.",
+             "9 malformed limits (single and multi-entry) x 11 kinds, non-numeric rs lists) -> ValueError, with the adjacent good values -> accepted. evaluations = constructor calls.",
         assumptions=["value menus are finite", "unlisted odd argument types are not constrained"])
